@@ -181,7 +181,7 @@ func TestWitnessInbandParameterSetPoisoning(t *testing.T) {
 		c.Pos = 0
 		c.Hostile = []pkt{mkPkt(rtp.ChannelVideo, mediaPacket(96, true, 50, 90000, w.pl), w.name)}
 		c.ProbeTS = 90000 + 2*probeStep
-		judge(t, "witness-parameter-set-poisoning", c)
+		judge(t, "witness-parameter-set-poisoning", c) // incl. identity: ea42bf3 lets the good sets replace the damaged one
 	}
 }
 
